@@ -1,0 +1,60 @@
+//go:build verif
+
+// Contracts for /verif/govc (comment-only; see /verif/DESIGN.md section 3.2).
+package app
+
+//@ define maximalAt(positions []nodePosition, k int) = forall j int :: in_range(j, positions) ==> sup(positions[k].gtidset, positions[j].gtidset)
+
+//@ func app.detectSplitbrain
+//@   requires nonnil [safety]: selectedPos.gtidset != nil
+//@   loop 1 invariant idx: -1 <= rangeindex && rangeindex < len(positions)
+//@   loop 1 invariant seen: forall k int :: 0 <= k && k <= rangeindex ==> sup(selectedPos.gtidset, positions[k].gtidset)
+//@   ensures C13.ds [C13,C01]: result <==> (exists k int :: in_range(k, positions) && !sup(selectedPos.gtidset, positions[k].gtidset))
+
+//@ func app.findMostRecentNodeAndDetectSplitbrain
+//@   requires nonempty: len(positions) >= 1
+//@   requires nonnil [safety]: forall k int :: in_range(k, positions) ==> positions[k].gtidset != nil
+//@   loop 1 invariant idx: 1 <= i && i <= len(positions)
+//@   loop 1 invariant from: exists m int :: 0 <= m && m < i && maxPos == positions[m]
+//@   loop 1 invariant top: forall k int :: 0 <= k && k < i && (forall j int :: 0 <= j && j < i ==> sup(positions[k].gtidset, positions[j].gtidset)) ==> sup(maxPos.gtidset, positions[k].gtidset)
+//@   ensures C13.mr_member [C13,C01]: !result2 ==> (exists m int :: in_range(m, positions) && result0 == positions[m].host && result1 == positions[m].gtidset)
+//@   ensures C13.mr_top [C13,C01]: !result2 ==> (forall j int :: in_range(j, positions) ==> sup(result1, positions[j].gtidset))
+//@   ensures C13.mr_split [C13,C01]: result2 <==> !(exists k int :: in_range(k, positions) && maximalAt(positions, k))
+
+// ---- C14: candidate selection ----------------------------------------------------------------
+
+//@ define chain(positions []nodePosition) = forall a int, b int :: in_range(a, positions) && in_range(b, positions) ==> sup(positions[a].gtidset, positions[b].gtidset) || sup(positions[b].gtidset, positions[a].gtidset)
+//@ define maxPrioAt(positions []nodePosition, t int) = in_range(t, positions) && (forall k int :: in_range(k, positions) ==> positions[k].priority <= positions[t].priority)
+
+//@ func app.getMostPriorityNode
+//@   requires nonnil [safety]: forall k int :: in_range(k, positions) ==> positions[k].gtidset != nil
+//@   loop 1 invariant idx: 1 <= i && i <= len(positions)
+//@   loop 1 invariant from: exists m int :: 0 <= m && m < i && maxPos == positions[m]
+//@   loop 1 invariant prio: forall k int :: 0 <= k && k < i ==> positions[k].priority <= maxPos.priority
+//@   loop 1 invariant moretx: chain(positions) ==> (forall k int :: 0 <= k && k < i && positions[k].priority == maxPos.priority ==> sup(maxPos.gtidset, positions[k].gtidset))
+//@   loop 1 invariant lesslag: chain(positions) ==> (forall k int :: 0 <= k && k < i && positions[k].priority == maxPos.priority && sup(positions[k].gtidset, maxPos.gtidset) ==> maxPos.lag <= positions[k].lag)
+//@   ensures C14.nil [C14]: (result == nil) <==> len(positions) == 0
+//@   ensures C14.member [C14]: result != nil ==> (exists m int :: in_range(m, positions) && deref(result) == positions[m])
+//@   ensures C14.maxprio [C14]: result != nil ==> (forall k int :: in_range(k, positions) ==> positions[k].priority <= result.priority)
+//@   ensures C14.moretx [C14]: result != nil && chain(positions) ==> (forall k int :: in_range(k, positions) && positions[k].priority == result.priority ==> sup(result.gtidset, positions[k].gtidset))
+//@   ensures C14.lesslag [C14]: result != nil && chain(positions) ==> (forall k int :: in_range(k, positions) && positions[k].priority == result.priority && sup(positions[k].gtidset, result.gtidset) ==> result.lag <= positions[k].lag)
+
+//@ func app.getMostDesirableNode
+//@   requires maxlag_nonneg [config]: priorityChoiceMaxLag >= 0
+//@   requires nonnil [safety]: forall k int :: in_range(k, positions) ==> positions[k].gtidset != nil
+//@   decreases len(positions)
+//@   loop 1 invariant idx: -1 <= rangeindex && rangeindex < len(positions)
+//@   loop 1 invariant sub: forall k int :: in_range(k, moreRecentHosts) ==> (exists m int :: 0 <= m && m <= rangeindex && moreRecentHosts[k] == positions[m] && positions[m].lag < thresholdLag)
+//@   loop 1 invariant cnt: len(moreRecentHosts) <= rangeindex + 1
+//@   loop 1 invariant strict: (exists m int :: 0 <= m && m <= rangeindex && !(positions[m].lag < thresholdLag)) ==> len(moreRecentHosts) <= rangeindex
+//@   ensures C14.err [C14]: (result1 != nil) <==> len(positions) == 0
+//@   ensures C14.member [C14]: result1 == nil ==> (exists m int :: in_range(m, positions) && result0 == positions[m].host)
+//@   ensures C14.prio [C14]: result1 == nil ==> (exists t int :: maxPrioAt(positions, t) && (positions[t].lag <= seconds(priorityChoiceMaxLag) ==> result0 == positions[t].host) && (!(positions[t].lag <= seconds(priorityChoiceMaxLag)) ==> result0 == positions[t].host || (exists m int :: in_range(m, positions) && result0 == positions[m].host && positions[m].lag < positions[t].lag - seconds(priorityChoiceMaxLag))))
+
+//@ func app.filterOutNodeFromPositions
+//@   loop 1 invariant idx: -1 <= rangeindex && rangeindex < len(positions)
+//@   loop 1 invariant excl: forall k int :: in_range(k, res) ==> res[k].host != hostToFilterOut && (exists m int :: 0 <= m && m <= rangeindex && res[k] == positions[m])
+//@   loop 1 invariant keep: forall m int :: 0 <= m && m <= rangeindex && positions[m].host != hostToFilterOut ==> (exists k int :: in_range(k, res) && res[k] == positions[m])
+//@   ensures C14.filter_excl [C14]: forall k int :: in_range(k, result) ==> result[k].host != hostToFilterOut
+//@   ensures C14.filter_sub [C14]: forall k int :: in_range(k, result) ==> (exists m int :: in_range(m, positions) && result[k] == positions[m])
+//@   ensures C14.filter_keep [C14]: forall m int :: in_range(m, positions) && positions[m].host != hostToFilterOut ==> (exists k int :: in_range(k, result) && result[k] == positions[m])
